@@ -20,6 +20,7 @@ use tokio::sync::mpsc;
 use tokio::time::Instant;
 use tonic::service::Routes;
 
+pub const EVENT_CAP: usize = 250_000;
 pub const HANG_LIMIT: Duration = Duration::from_secs(3600);
 pub const PULL_HANG_LIMIT: Duration = Duration::from_secs(3600);
 pub const DRAIN_ADVANCE: Duration = Duration::from_secs(601);
@@ -224,6 +225,13 @@ impl Sim {
         let mut events = self.events.borrow_mut();
         let seq = events.len() as u64 + 1;
         events.push(Event { seq, t_us: self.now_us(), client, ev });
+        if events.len() > EVENT_CAP {
+            // A run that keeps producing events without ending is reported by the parent as a
+            // crash-class violation ("runaway"); show what it was doing.
+            let tail: Vec<String> = events.iter().rev().take(6).map(|e| format!("{}@{}us {:?}", e.seq, e.t_us, e.ev).chars().take(160).collect()).collect();
+            eprintln!("runaway: more than {} events; last: {}", EVENT_CAP, tail.join(" | "));
+            std::process::exit(3);
+        }
         seq
     }
 
